@@ -32,7 +32,19 @@ REWRITE_OPS = ["transform_obs", "transform_samp", "norm_obs", "norm_samp", "pa",
 ALIAS_ROUTES = ["alias:%s:%s" % (d, w) for d in ("copy", "sort_order", "transpose", "filter", "ctor_shared")
                 for w in ("check_source", "check_derived")]
 EXTRA_ROUTES = ["rewrite:" + op for op in REWRITE_OPS] + ["reloaded", "reloaded", "planted_zero:data",
-                                                          "planted_zero:setitem", "planted_zero:data"] + ALIAS_ROUTES
+                                                          "planted_zero:setitem", "planted_zero:data"] + ALIAS_ROUTES + \
+    ["entered"] * 6
+# tables that ENTER through a reader (a 2.0-announcing HDF5 file, a 2.1 one, JSON, TSV, the files the repository
+# ships), are optionally changed in place, and are then written: the written file must be a conforming 2.1 file
+ENTRY_HOWS = ["h5_20:load_table", "h5_20:from_hdf5", "h5_20:parse_table", "h5_20:from_hdf5", "json:load_table",
+              "json:from_json", "json:parse_table", "tsv:load_table", "tsv:from_tsv", "shipped:any", "shipped:any"]
+ENTRY_EDITS = ["none", "none", "transform", "norm", "pa", "update_ids", "add_metadata", "filter"]
+SHIPPED = ["biom/tests/test_data/test.biom", "biom/tests/test_data/test_grp_metadata.biom",
+           "biom/tests/test_data/edgecase_issue_952.biom", "biom/tests/test_data/test.json",
+           "examples/min_sparse_otu_table_hdf5.biom",
+           "examples/rich_sparse_otu_table_hdf5.biom", "examples/rich_sparse_otu_table_hdf5_group_metadata.biom",
+           "examples/min_sparse_otu_table.biom", "examples/rich_sparse_otu_table.biom",
+           "biom/tests/test_data/test.biom"]
 OWN_HEADERS = [None, None, {"generated_by": "previous writer", "create_date": [2011, 11, 11, 11, 11, 11, 11]},
                {"generated_by": "öwn", "create_date": None}, {"generated_by": "", "create_date": [2000, 1, 1, 0, 0, 0, 0]}]
 
@@ -319,6 +331,13 @@ def gen_case(rng, quick=True, empty_axes=True, flat_tax=False, allow_group=True)
                           core.VALUE_CLASSES, ("smallcount",)])
     route = rng.choice(ROUTES + EXTRA_ROUTES)
     density = rng.choice([0.0, 0.15, 0.3, 0.5, 0.5, 0.8, 0.8, 1.0, 1.0])
+    if route == "entered":
+        route = "entered:%s:%s" % (rng.choice(ENTRY_HOWS), rng.choice(ENTRY_EDITS))
+        if "shipped" in route:
+            route += ":" + rng.choice(SHIPPED)
+        if ":norm" in route or "tsv" in route:
+            classes = rng.choice([("count",), ("count", "dyadic")])
+        n, m = max(n, 1), max(m, 1)
     if route == "subsample_full":
         classes = rng.choice([("count",), ("smallcount",)])      # counts: subsampling needs integers
     elif route.startswith("rewrite:"):
@@ -477,6 +496,77 @@ def _plant_zero(t, how, rng):
     return t, planted
 
 
+def _entered(case, parts, finish, rng, tmp):
+    """the table to write comes out of a reader; `parts` = ['entered', source, reader, edit(, shipped file)]"""
+    import io
+    import h5py
+    import numpy as np
+    import biom
+    from biom import Table
+    _, source, reader, edit = parts[:4]
+    spec = case["spec"]
+    path = os.path.join(tmp, "entry_%d" % os.getpid())
+    fresh(path)
+    try:
+        if source == "shipped":
+            root = core.REPO if os.path.exists(os.path.join(core.REPO, "examples")) else "/repo"
+            t = biom.load_table(os.path.join(root, parts[4]))
+        else:
+            first = finish(core.build(spec, "dense"))
+            if source == "h5_20":
+                try:
+                    with h5py.File(path, "w") as f:
+                        first.to_hdf5(f, "an old writer", creation_date=datetime.datetime(2014, 7, 29, 16, 16, 36))
+                except Exception as e:                  # noqa: BLE001
+                    raise Unobservable("write", e)
+                with h5py.File(path, "r+") as f:        # the file announces BIOM 2.0 (same groups and datasets)
+                    f.attrs["format-version"] = np.array([2, 0])
+                try:
+                    if reader == "load_table":
+                        t = biom.load_table(path)
+                    else:
+                        with h5py.File(path, "r") as f:
+                            t = Table.from_hdf5(f) if reader == "from_hdf5" else biom.parse_table(f)
+                except Exception as e:                  # noqa: BLE001
+                    raise Unobservable("load", e)
+            elif source == "json":
+                text = first.to_json("json writer")
+                if reader == "from_json":
+                    import json as _json
+                    t = Table.from_json(_json.loads(text))
+                elif reader == "parse_table":
+                    t = biom.parse_table(io.StringIO(text))
+                else:
+                    open(path, "w").write(text)
+                    t = biom.load_table(path)
+            else:
+                text = first.to_tsv()
+                if reader == "from_tsv":
+                    t = Table.from_tsv(text.splitlines(), None, None, lambda x: x)
+                else:
+                    open(path, "w").write(text)
+                    t = biom.load_table(path)
+    finally:
+        if os.path.exists(path):
+            os.remove(path)
+    with np.errstate(all="ignore"):
+        nonempty = t.shape[0] > 0 and t.shape[1] > 0
+        if edit == "transform" and nonempty:
+            t.transform(lambda v, i, md: v * 0.5 + 0.0, axis=rng.choice(["sample", "observation"]), inplace=True)
+        elif edit == "norm" and nonempty and t.matrix_data.nnz and not (t.matrix_data.data < 0).any() \
+                and not (np.asarray(t.sum(axis="sample")) == 0).any():
+            t.norm(inplace=True)
+        elif edit == "pa" and nonempty:
+            t.pa(inplace=True)
+        elif edit == "update_ids" and nonempty:
+            t.update_ids({x: x + "_renamed" for x in t.ids()}, inplace=True)
+        elif edit == "add_metadata" and nonempty:
+            t.add_metadata({x: {"added": "v%d" % k} for k, x in enumerate(t.ids())}, axis="sample")
+        elif edit == "filter" and t.shape[1] > 1:
+            t.filter(list(t.ids())[:-1], inplace=True)
+    return t
+
+
 def build_table(case, tmp=None):
     """materialise a case through its layout route / operation history; returns the table to write"""
     import random
@@ -514,6 +604,8 @@ def build_table(case, tmp=None):
     if route.startswith("rewrite:"):
         t = finish(core.build(spec, rng.choice(["csr", "csc", "dense", "coo"])))
         return _rewrite(t, route.split(":", 1)[1], spec, rng, tmp)
+    if route.startswith("entered:"):
+        return _entered(case, route.split(":"), finish, rng, tmp)
     if route.startswith("alias:"):
         _, how, which = route.split(":")
         src_t = finish(core.build(spec, rng.choice(["csr", "csc", "dense"])))
@@ -1023,6 +1115,11 @@ _sib["spec"]["rows"] = [[0.0, 7.0], [8.0, 0.0], [0.0, 0.0]]
 # two tables in one file, each in a non-root group; each of the two is checked
 CORPUS_R2 += [_fixed(group={"pos": 0, "sibling": _sib}, table_id="first"),
               _fixed(group={"pos": 1, "sibling": _sib}, table_id="second", writer="save_table")]
+# tables entering through a reader of a 2.0-announcing file (seed C04-c3), then written
+CORPUS_R2 += [_fixed(route="entered:h5_20:load_table:none", omd=[{"grp": "a"}, {"grp": "b"}, {"grp": "c"}]),
+              _fixed(route="entered:h5_20:from_hdf5:norm"),
+              _fixed(route="entered:shipped:any:transform:biom/tests/test_data/test.biom"),
+              _fixed(route="entered:json:load_table:none", smd=[{"depth": 1}, {"depth": 2}])]
 # C04 only: flat classic-TSV taxonomy texts (one row per ID, also for '' and for a text without ';')
 CORPUS_FLAT = [_fixed(omd=[{"taxonomy": "k__A; p__x"}, {"taxonomy": ""}, {"taxonomy": "k__C"}]),
                _fixed(omd=[{"taxonomy": ""}, {"taxonomy": " k__B ;p__y; c__z "}, {"taxonomy": "k__D;;c__q"}])]
